@@ -122,6 +122,7 @@ type scenReport struct {
 }
 
 type schedCase struct {
+	Clock   bool   `json:"visible_clock,omitempty"` // recorded with call/return instants as visible events (thorough tier)
 	Variant string `json:"variant"`
 	Mode    string `json:"mode"`
 	Bound   int    `json:"bound"`
@@ -139,6 +140,7 @@ func main() {
 	r.Replayer("sched", func(raw json.RawMessage) (bool, string) {
 		var c schedCase
 		json.Unmarshal(raw, &c)
+		visibleClock = c.Clock
 		mk := factory(c.Variant)
 		if mk == nil {
 			return false, "unknown scenario variant " + c.Variant
@@ -180,6 +182,10 @@ func main() {
 		}
 		return true, "no race reported"
 	})
+	if r.Thorough() {
+		os.Setenv("C07_VISIBLE_CLOCK", "1")
+		visibleClock = true
+	}
 	r.MaybeReplay()
 	if !vrt.Active() && os.Getenv("VSCHED_INSTRUMENTED") == "" {
 		// the binary must have been built through build.sh (overlay); detect the plain build
@@ -244,7 +250,7 @@ func main() {
 			sr.Failures = append(sr.Failures, fmt.Sprintf("%s x%d", f.Shape, f.Count))
 			for i := 0; i < f.Count; i++ {
 				r.Fail(common.Failure{Check: "sched", Class: f.Class, Shape: f.Shape,
-					Case:   schedCase{Variant: p.variant, Mode: mode, Bound: bound, Choices: f.Choices, Trace: f.Trace},
+					Case:   schedCase{Clock: visibleClock, Variant: p.variant, Mode: mode, Bound: bound, Choices: f.Choices, Trace: f.Trace},
 					Detail: fmt.Sprintf("%s [%s], schedule %v (%d steps):\n%s", p.variant, mode, f.Choices, f.Outcome.Steps, f.Detail)})
 			}
 		}
